@@ -20,11 +20,16 @@ Import ListNotations.
 From DTN Require Import Gen.TlsPolicy Model.TlsSpec Proofs.TlsPolicyProofs.
 Local Open Scope N_scope.
 
-(* ---- TLS is attempted exactly when both contact headers offer it *)
-Theorem C15_tls_iff_both : forall this_can peer_can : bool,
-  tls_attempt this_can peer_can = true <-> (this_can = true /\ peer_can = true).
+(* ---- TLS is attempted exactly when both contact headers offer it: for ALL values of the two
+        flags octets (reserved bits included), attempted <-> bit 0 (CAN_TLS, RFC 9174 4.2) of both is set *)
+Theorem C15_tls_iff_both : forall this_flags peer_flags : N,
+  tls_attempt this_flags peer_flags = true <-> (N.testbit this_flags 0 = true /\ N.testbit peer_flags 0 = true).
 Proof. exact tls_iff_both. Qed.
 Print Assumptions C15_tls_iff_both.
+Example C15_tls_iff_both_reserved_bits :
+  tls_attempt 1 1 = true /\ tls_attempt 1 3 = true /\ tls_attempt 255 129 = true
+  /\ tls_attempt 1 2 = false /\ tls_attempt 254 1 = false /\ tls_attempt 0 255 = false.
+Proof. repeat split; reflexivity. Qed.
 
 (* ---- a node that requires TLS never proceeds (to SESS_INIT) in the clear *)
 Theorem C15_require_tls_never_clear : forall (attempt handshake_ok secured : bool),
@@ -48,16 +53,18 @@ Proof. split; reflexivity. Qed.
         whenever the contact step proceeds, it is secured iff both sides offered
         TLS, and in agreement with require_tls when that is set *)
 Theorem C15_no_sessinit_unless_policy :
-  forall (require_tls : option bool) (this_can peer_can handshake_ok secured : bool),
-    contact_outcome require_tls (tls_attempt this_can peer_can) handshake_ok = Proceed secured ->
-    secured = (this_can && peer_can)
+  forall (require_tls : option bool) (this_flags peer_flags : N) (handshake_ok secured : bool),
+    contact_outcome require_tls (tls_attempt this_flags peer_flags) handshake_ok = Proceed secured ->
+    secured = (N.testbit this_flags 0 && N.testbit peer_flags 0)
     /\ match require_tls with Some r => secured = r | None => True end.
 Proof. exact no_sessinit_unless_policy. Qed.
 Print Assumptions C15_no_sessinit_unless_policy.
 Example C15_no_sessinit_unless_policy_nonvacuous :
-  contact_outcome None (tls_attempt true true) true = Proceed true
-  /\ contact_outcome None (tls_attempt true false) true = Proceed false
-  /\ contact_outcome (Some false) (tls_attempt false true) false = Proceed false.
+  contact_outcome None (tls_attempt 1 1) true = Proceed true
+  /\ contact_outcome None (tls_attempt 1 3) true = Proceed true
+  /\ contact_outcome None (tls_attempt 1 2) true = Proceed false
+  /\ contact_outcome (Some true) (tls_attempt 1 255) true = Proceed true
+  /\ contact_outcome (Some false) (tls_attempt 0 1) false = Proceed false.
 Proof. repeat split; reflexivity. Qed.
 
 (* ---- a secured continuation only comes out of a successful handshake *)
